@@ -38,4 +38,4 @@ def are_matrices_equivalent_up_to_global_phase(
 
     phase_difference = matrix_a[reference] / matrix_b[reference]
 
-    return np.allclose(matrix_a, phase_difference * matrix_b)
+    return np.allclose(matrix_a, phase_difference * matrix_b, atol=ATOL)
